@@ -223,9 +223,9 @@ theorem poly_rounded_div_eq (a b : List PyNum)
     | fq q =>
       have hbq : getI (vals b) (PyEcc.deg (vals b)) = q := by rw [getI_vals, hq]; rfl
       refine foldlM_bind_ok_rel
-        (r := fun (g : List Int × List PyNum) (m : List Int × List Int) => g.1 = m.2 ∧ CongL p g.2 m.1)
+        (r := fun (g : List PyNum × List Int) (m : List Int × List Int) => g.2 = m.2 ∧ CongL p g.1 m.1)
         (k' := fun m => List.take (PyEcc.deg m.2 + 1) m.2) ⟨rfl, congL_vals a⟩ ?_ ?_
-      · rintro ⟨o, temp⟩ ⟨tempM, oM⟩ i ⟨ho, ht⟩
+      · rintro ⟨temp, o⟩ ⟨tempM, oM⟩ i ⟨ho, ht⟩
         simp only at ho ht
         subst ho
         obtain ⟨n, hn, hnq⟩ := truediv_fq (p := p) (getN temp (PyEcc.deg (vals b) + i)) _ q (ht.2 _)
@@ -235,7 +235,7 @@ theorem poly_rounded_div_eq (a b : List PyNum)
         refine fields_foldl_rel (r := fun (g : List PyNum) (m : List Int) => CongL p g m) ht ?_
         intro x₂ x₁ c hx
         exact hx.upd _ _ _ (cong_sub_int _)
-      · rintro ⟨o, temp⟩ ⟨tempM, oM⟩ ⟨ho, _⟩
+      · rintro ⟨temp, o⟩ ⟨tempM, oM⟩ ⟨ho, _⟩
         simp only at ho
         subst ho
         rfl
@@ -326,11 +326,11 @@ theorem isFq_sub (x y : PyNum) (h : isFq x) : isFq (PyNum.sub p x y) := by
   | int v => exact absurd h (by simp [isFq])
   | fq n => cases y <;> simp [PyNum.sub, isFq]
 
-/-- one round `j` of the inner loop, generated code: state `(new, nm)` -/
-def stepG (p : Nat) (lowi : PyNum) (lmi : Int) (r : List Int) (i : Nat) (st : List PyNum × List Int) (j : Nat) :
-    List PyNum × List Int :=
-  (updN st.1 (i + j) (fun x' => PyNum.sub p x' (PyNum.mul p lowi (PyNum.int (getI r j)))),
-   updAt st.2 (i + j) (fun x' => x' - lmi * getI r j))
+/-- one round `j` of the inner loop, generated code: state `(nm, new)` -/
+def stepG (p : Nat) (lowi : PyNum) (lmi : Int) (r : List Int) (i : Nat) (st : List Int × List PyNum) (j : Nat) :
+    List Int × List PyNum :=
+  (updAt st.1 (i + j) (fun x' => x' - lmi * getI r j),
+   updN st.2 (i + j) (fun x' => PyNum.sub p x' (PyNum.mul p lowi (PyNum.int (getI r j)))))
 
 /-- one round `j` of the inner loop, model: state `(nm, new)` -/
 def stepM (p : Nat) (lowi lmi : Int) (r : List Int) (i : Nat) (st : List Int × List Int) (j : Nat) :
@@ -340,16 +340,16 @@ def stepM (p : Nat) (lowi lmi : Int) (r : List Int) (i : Nat) (st : List Int × 
 
 /-- what `n` rounds of the inner loop `for j ..: nm[i + j] -= lm[i] * int(r[j]); new[i + j] -= low[i] * int(r[j])` keep
     and establish -/
-structure PassInv (i n : Nat) (lowi : PyNum) (G0 G : List PyNum × List Int) (M : List Int × List Int) : Prop where
-  nm : G.2 = M.1
-  ex : vals G.1 = M.2
-  len : G.1.length = G0.1.length
-  len2 : G.2.length = G0.2.length
-  mono : ∀ k, isFq (getN G0.1 k) → isFq (getN G.1 k)
-  hit : isFq lowi → ∀ k, i ≤ k → k < i + n → k < G0.1.length → isFq (getN G.1 k)
+structure PassInv (i n : Nat) (lowi : PyNum) (G0 G : List Int × List PyNum) (M : List Int × List Int) : Prop where
+  nm : G.1 = M.1
+  ex : vals G.2 = M.2
+  len : G.2.length = G0.2.length
+  len2 : G.1.length = G0.1.length
+  mono : ∀ k, isFq (getN G0.2 k) → isFq (getN G.2 k)
+  hit : isFq lowi → ∀ k, i ≤ k → k < i + n → k < G0.2.length → isFq (getN G.2 k)
 
-theorem pass_rel (lowi : PyNum) (lmi : Int) (r : List Int) (i : Nat) (G0 : List PyNum × List Int)
-    (M0 : List Int × List Int) (hnm : G0.2 = M0.1) (hex : vals G0.1 = M0.2) (hfq : isFq lowi ∨ AllFq G0.1) :
+theorem pass_rel (lowi : PyNum) (lmi : Int) (r : List Int) (i : Nat) (G0 : List Int × List PyNum)
+    (M0 : List Int × List Int) (hnm : G0.1 = M0.1) (hex : vals G0.2 = M0.2) (hfq : isFq lowi ∨ AllFq G0.2) :
     ∀ n, PassInv i n lowi G0 (List.foldl (stepG p lowi lmi r i) G0 (List.range n))
       (List.foldl (stepM p (val lowi) lmi r i) M0 (List.range n)) := by
   intro n
@@ -360,7 +360,7 @@ theorem pass_rel (lowi : PyNum) (lmi : Int) (r : List Int) (i : Nat) (G0 : List 
     generalize List.foldl (stepG p lowi lmi r i) G0 (List.range n) = G at ih
     generalize List.foldl (stepM p (val lowi) lmi r i) M0 (List.range n) = M at ih
     simp only [List.foldl_cons, List.foldl_nil, stepG, stepM]
-    have hstep : ∀ k, isFq (getN G.1 k) → isFq (getN (updN G.1 (i + n)
+    have hstep : ∀ k, isFq (getN G.2 k) → isFq (getN (updN G.2 (i + n)
         (fun x' => PyNum.sub p x' (PyNum.mul p lowi (PyNum.int (getI r n))))) k) := by
       intro k hk
       rw [getN_updN]
@@ -382,29 +382,29 @@ theorem pass_rel (lowi : PyNum) (lmi : Int) (r : List Int) (i : Nat) (G0 : List 
       · exact hstep k (ih.hit hl k h1 (by omega) h3)
 
 /-- the double loop `for i in range(d + 1): for j in range(d + 1 - i): nm[i + j] -= lm[i] * int(r[j]);
-    new[i + j] -= low[i] * int(r[j])` of the generated code (state `(new, nm)`, `new` a list of int-or-FQ values) against
+    new[i + j] -= low[i] * int(r[j])` of the generated code (state `(nm, new)`, `new` a list of int-or-FQ values) against
     the model's (state `(nm, new)`): `nm` is the same list, the integers of `new` are LITERALLY the model's list, and all
     `d + 1` entries of `new` are `FQ` objects afterwards (the pass `i = 0` subtracts an `FQ` object from each of them). -/
 theorem double_loop {d : Nat} (lm r hm : List Int) (low high : List PyNum)
-    {gG : List PyNum × List Int → Nat → List PyNum × List Int} {gM : List Int × List Int → Nat → List Int × List Int}
+    {gG : List Int × List PyNum → Nat → List Int × List PyNum} {gM : List Int × List Int → Nat → List Int × List Int}
     (hG : ∀ st i, gG st i = List.foldl (stepG p (getN low i) (getI lm i) r i) st (List.range (d + 1 - i)))
     (hM : ∀ st i, gM st i = List.foldl (stepM p (getI (vals low) i) (getI lm i) r i) st (List.range (d + 1 - i)))
     (h0 : isFq (getN low 0)) (hlen : high.length = d + 1) :
-    (List.foldl gG (high, hm) (List.range (d + 1))).2 = (List.foldl gM (hm, vals high) (List.range (d + 1))).1 ∧
-    vals (List.foldl gG (high, hm) (List.range (d + 1))).1 = (List.foldl gM (hm, vals high) (List.range (d + 1))).2 ∧
-    (List.foldl gG (high, hm) (List.range (d + 1))).1.length = d + 1 ∧
-    (List.foldl gG (high, hm) (List.range (d + 1))).2.length = hm.length ∧
-    AllFq (List.foldl gG (high, hm) (List.range (d + 1))).1 := by
+    (List.foldl gG (hm, high) (List.range (d + 1))).1 = (List.foldl gM (hm, vals high) (List.range (d + 1))).1 ∧
+    vals (List.foldl gG (hm, high) (List.range (d + 1))).2 = (List.foldl gM (hm, vals high) (List.range (d + 1))).2 ∧
+    (List.foldl gG (hm, high) (List.range (d + 1))).2.length = d + 1 ∧
+    (List.foldl gG (hm, high) (List.range (d + 1))).1.length = hm.length ∧
+    AllFq (List.foldl gG (hm, high) (List.range (d + 1))).2 := by
   rw [List.range_succ_eq_map, List.foldl_cons, List.foldl_cons, hG, hM, getI_vals]
-  have h1 := pass_rel (p := p) (getN low 0) (getI lm 0) r 0 (high, hm) (hm, vals high) rfl rfl (Or.inl h0) (d + 1 - 0)
-  generalize List.foldl (stepG p (getN low 0) (getI lm 0) r 0) (high, hm) (List.range (d + 1 - 0)) = G1 at h1
+  have h1 := pass_rel (p := p) (getN low 0) (getI lm 0) r 0 (hm, high) (hm, vals high) rfl rfl (Or.inl h0) (d + 1 - 0)
+  generalize List.foldl (stepG p (getN low 0) (getI lm 0) r 0) (hm, high) (List.range (d + 1 - 0)) = G1 at h1
   generalize List.foldl (stepM p (val (getN low 0)) (getI lm 0) r 0) (hm, vals high) (List.range (d + 1 - 0)) = M1 at h1
-  have hl1 : G1.1.length = d + 1 := by rw [h1.len]; exact hlen
-  have hall : AllFq G1.1 := fun k hk => h1.hit h0 k (by omega) (by omega) (by show k < high.length; omega)
-  have hl2 : G1.2.length = hm.length := h1.len2
+  have hl1 : G1.2.length = d + 1 := by rw [h1.len]; exact hlen
+  have hall : AllFq G1.2 := fun k hk => h1.hit h0 k (by omega) (by omega) (by show k < high.length; omega)
+  have hl2 : G1.1.length = hm.length := h1.len2
   have := fields_foldl_rel (l := List.map Nat.succ (List.range d)) (g₁ := gM) (g₂ := gG)
-    (r := fun (G : List PyNum × List Int) (M : List Int × List Int) =>
-      G.2 = M.1 ∧ vals G.1 = M.2 ∧ G.1.length = d + 1 ∧ G.2.length = hm.length ∧ AllFq G.1)
+    (r := fun (G : List Int × List PyNum) (M : List Int × List Int) =>
+      G.1 = M.1 ∧ vals G.2 = M.2 ∧ G.2.length = d + 1 ∧ G.1.length = hm.length ∧ AllFq G.2)
     (i₁ := M1) (i₂ := G1) ⟨h1.nm, h1.ex, hl1, hl2, hall⟩ ?_
   · exact this
   · rintro G M i ⟨a1, a2, a3, a4, a5⟩
@@ -415,14 +415,14 @@ theorem double_loop {d : Nat} (lm r hm : List Int) (low high : List PyNum)
     rw [h2.len] at hk
     exact h2.mono k (a5 k hk)
 
-/-- the `while deg(low)` loop generated from the reference `FQP.inv` (state `(high, hm, lm, low)`, `low` and `high` lists
+/-- the `while deg(low)` loop generated from the reference `FQP.inv` (state `(lm, hm, low, high)`, `low` and `high` lists
     of int-or-FQ values) never fails — no float division, no length exception — and computes the model's `invLoopP .ref`
     on the integers of the entries (the model returns `(lm, low)`), for every fuel.  Invariant: the four lists have
     `d + 1` entries, the entries of `low` are `FQ` objects except possibly a trailing int 0. -/
 theorem inv_loop_eq (a : Fqp .ref p mc) : ∀ (f : Nat) (lm hm : List Int) (low high : List PyNum),
     lm.length = mc.length + 1 → hm.length = mc.length + 1 → low.length = mc.length + 1 → high.length = mc.length + 1 →
     LowShape mc.length low →
-    ∃ high' hm' lm' low', FQP.inv_loop0 p mc (obj a) f (high, hm, lm, low) = .ok (high', hm', lm', low') ∧
+    ∃ lm' hm' low' high', FQP.inv_loop0 p mc (obj a) f (lm, hm, low, high) = .ok (lm', hm', low', high') ∧
       (lm', vals low') = Fqp.invLoopP .ref p mc.length f lm (vals low) hm (vals high) ∧ lm'.length = mc.length + 1 := by
   intro f
   induction f with
@@ -439,14 +439,14 @@ theorem inv_loop_eq (a : Fqp .ref p mc) : ∀ (f : Nat) (lm hm : List Int) (low 
         have := deg_le' (vals low); rw [length_vals, h3] at this; omega
       rw [poly_rounded_div_eq high low (fun _ => hfq)]
       simp only [bind, Except.bind, h1, h2, h3, h4, _root_.ne_eq, not_true_eq_false, if_false]
-      have key : ∀ (G : List PyNum × List Int) (M : List Int × List Int),
-          (G.2 = M.1 ∧ vals G.1 = M.2 ∧ G.1.length = mc.length + 1 ∧ G.2.length = hm.length ∧ AllFq G.1) →
-          ∃ high' hm' lm' low', FQP.inv_loop0 p mc (obj a) f (low, lm, G.2, G.1) = .ok (high', hm', lm', low') ∧
+      have key : ∀ (G : List Int × List PyNum) (M : List Int × List Int),
+          (G.1 = M.1 ∧ vals G.2 = M.2 ∧ G.2.length = mc.length + 1 ∧ G.1.length = hm.length ∧ AllFq G.2) →
+          ∃ lm' hm' low' high', FQP.inv_loop0 p mc (obj a) f (G.1, lm, G.2, low) = .ok (lm', hm', low', high') ∧
             (lm', vals low') = Fqp.invLoopP .ref p mc.length f M.1 M.2 lm (vals low) ∧ lm'.length = mc.length + 1 := by
         rintro ⟨g1, g2⟩ ⟨m1, m2⟩ ⟨e1, e2, l1, l2, hall⟩
         simp only at e1 e2 l1 l2 hall
         subst e1 e2
-        exact ih g2 lm g1 low (by rw [l2, h2]) h1 l1 h3
+        exact ih g1 lm g2 low (by rw [l2, h2]) h1 l1 h3
           ⟨fun i hi => hall i (by omega), Or.inl (hall _ (by omega))⟩
       apply key
       exact double_loop lm _ hm low high (fun _ _ => rfl) (fun _ _ => rfl) (hs.1 0 hdpos) h4
@@ -525,7 +525,7 @@ theorem inv_eq (a : Fqp .ref p mc) (ha : a.coeffs.length = mc.length) :
   have hm : (obj a).modulus_coeffs = mc := rfl
   unfold FQP.inv Fqp.inv
   simp only [hd, hc, hm, List.map_cons, List.map_nil]
-  obtain ⟨high', hm', lm', low', hrun, hmod, hlen⟩ := inv_loop_eq a (4 * mc.length + 4)
+  obtain ⟨lm', hm', low', high', hrun, hmod, hlen⟩ := inv_loop_eq a (4 * mc.length + 4)
     ([1] ++ List.replicate mc.length 0) (List.replicate (mc.length + 1) 0)
     (a.coeffs.map PyNum.fq ++ [PyNum.int 0]) ((mc ++ [1]).map PyNum.int)
     (by simp) (by simp) (by simp [ha]) (by simp) (lowShape_init _ _ ha)
